@@ -432,6 +432,48 @@ def s_response_two(vc):
     vc.ensure("jar_is_the_result_of_both_fields", deep_eq(vc, jar_snapshot(vc, addon.jar), want))
 
 
+# Set-Cookie parsing: several cookies folded into one field line (comma separated, RFC 2109 style, still produced by proxies and
+# joined header lists): every cookie keeps exactly its own attributes
+FOLDED = [
+    ("sid=secret; HttpOnly, track=1; Domain=.example.com; Path=/", [("sid", "secret", [("HttpOnly", None)]), ("track", "1", [("Domain", ".example.com"), ("Path", "/")])]),
+    ("a=1; Secure; HttpOnly, b=2; Path=/x, c=3", [("a", "1", [("Secure", None), ("HttpOnly", None)]), ("b", "2", [("Path", "/x")]), ("c", "3", [])]),
+    ("a=1; Path=/p, b=2", [("a", "1", [("Path", "/p")]), ("b", "2", [])]),
+    ("a=1; Expires=Thu, 01 Jan 2030 00:00:00 GMT; Secure, b=2; Domain=d.example", [("a", "1", [("Expires", "Thu, 01 Jan 2030 00:00:00 GMT"), ("Secure", None)]), ("b", "2", [("Domain", "d.example")])]),
+    ("a=1; HttpOnly", [("a", "1", [("HttpOnly", None)])]),
+    ("a=1;Secure,b=2", [("a", "1", [("Secure", None)]), ("b", "2", [])]),
+    ("a=1; Domain=one.example; Secure, b=2; Secure, c=3; Domain=three.example", [("a", "1", [("Domain", "one.example"), ("Secure", None)]), ("b", "2", [("Secure", None)]), ("c", "3", [("Domain", "three.example")])]),
+]
+
+
+@scenario("parse_set_cookie_header.folded", functions=["mitmproxy.net.http.cookies:parse_set_cookie_header", "mitmproxy.net.http.cookies:_read_set_cookie_pairs",
+                                                       "mitmproxy.net.http.cookies:_read_key", "mitmproxy.net.http.cookies:_read_value"], max_unroll=64)
+def s_parse_folded(vc):
+    i = vc.case("line", list(range(len(FOLDED))))
+    line, want = FOLDED[i]
+    out = vc.call("mitmproxy.net.http.cookies:parse_set_cookie_header", line)
+    vc.ensure("no_exception", out.ok)
+    if not out.ok:
+        return
+
+    def conc(x):
+        x = vc.resolve(x) if vc.mode == "sym" else x
+        if x is None or isnone(x) is True:
+            return None
+        return x.concrete() if hasattr(x, "concrete") else x
+
+    got = []
+    for c in items_of_any(out.result):
+        n, v, attrs = items_of_any(c)
+        fields = attrs.fields["fields"] if isinstance(attrs, SObj) else attrs.fields
+        got.append((conc(n), conc(v), [(conc(items_of_any(f)[0]), conc(items_of_any(f)[1])) for f in items_of_any(fields)]))
+    vc.ensure("one_cookie_per_comma_separated_cookie", len(got) == len(want))
+    vc.ensure("every_cookie_keeps_exactly_its_own_attributes", got == want)
+
+
+def items_of_any(x):
+    return list(x.items) if isinstance(x, (SList, STuple)) else list(x)
+
+
 @scenario("request", functions=[SC + ".request"])
 def s_request(vc):
     has_flt = vc.case("filter_set", [True, False])
@@ -617,6 +659,7 @@ ASSUMPTIONS = [
     "T1 is_expired: Max-Age attribute value is ASCII; email.utils.parsedate_tz / mktime_tz are scripted (unparsable, or a date with symbolic timestamp); the two clock reads inside is_expired are less than a second apart; Python's int() leniency (sign '+', blanks, underscores) is left open",
     "T1 response/request: stickycookie.domain_match and path_match are arbitrary predicates with recorded arguments (their contracts are the scenarios domain_match / path_match); Set-Cookie parsing (Response.cookies), cookies.is_expired, flowfilter.match and cookies.format_cookie_header are abstracted (exercised for real in T2)",
     "all histories: the jar invariant 'an entry (domain, port, path) -> {name: value} was stored by a response whose ckey is that triple and whose host passed domain_match' is established by scenario response (one parsed cookie per call; the loop body treats each cookie independently) and used entry-wise by scenario request (the loop body treats each jar entry independently, so two entries with symbolic keys stand for any number)",
+    "T1 parse_set_cookie_header.folded: the real parser (parse_set_cookie_header, _read_set_cookie_pairs, _read_key, _read_value) is interpreted on a table of 7 concrete comma-folded Set-Cookie lines (flag attributes before the comma, a comma inside an Expires date, three cookies, one cookie) - a table, not a for-all-strings proof: the character loops over a symbolic line are out of the engine's reach; more shapes (288 folded lines x 4 requests) are enumerated in T2",
     "T1 request: jar with two entries (2 + 1 cookies) and symbolic keys; request target ASCII; the cookie path of a cookie without Path attribute is '/' (mitmproxy's choice; RFC 6265 5.1.4 default-path would be the directory of the setting request's path)",
 ]
 
@@ -843,3 +886,30 @@ async def _bounded_multi_set_cookie(b):
                         want = sorted((n, v) for (n, pth), v in ref.items() if ref_path_match(target, pth))
                         if pairs != want:
                             b.fail("sticky.every_set_cookie_field_of_a_response_processed", dict(inp, request=target), f"Cookie: {got!r}, expected {want}")
+        # several cookies folded into ONE Set-Cookie line, value-less attributes (Secure, HttpOnly) in any position: each stored
+        # cookie's domain and path come from its own attributes only
+        import itertools as _it
+        flagsets = [[], ["HttpOnly"], ["Secure", "HttpOnly"]]
+        scopes = [(None, None), (".example.com", "/app"), (".example.com", None), (None, "/app")]
+        for (d1, p1), (d2, p2) in _it.product(scopes, repeat=2):
+            for fl1, fl2 in _it.product(flagsets, repeat=2):
+                for flags_last in (True, False):
+                    def one(n, v, dom, pth, flags):
+                        attrs = ([f"Domain={dom}"] if dom else []) + ([f"Path={pth}"] if pth else [])
+                        attrs = attrs + flags if flags_last else flags + attrs
+                        return "; ".join([f"{n}={v}"] + attrs)
+                    line = one("sid", "secret", d1, p1, fl1) + ", " + one("track", "1", d2, p2, fl2)
+                    sc.jar.clear()
+                    f = tflow.tflow(req=tutils.treq(host="example.com", port=80, path=b"/set"), resp=tutils.tresp(headers=http.Headers([(b"set-cookie", line.encode())])))
+                    sc.response(f)
+                    b.case(("folded", line))
+                    ck = [("sid", "secret", d1, p1 or "/"), ("track", "1", d2, p2 or "/")]
+                    for qhost, target in (("example.com", "/"), ("example.com", "/app/x"), ("a.example.com", "/"), ("a.example.com", "/app/x")):
+                        q = tflow.tflow(req=tutils.treq(host=qhost, port=80, path=target.encode()))
+                        sc.request(q)
+                        got = q.request.headers.get("cookie", "")
+                        pairs = sorted(tuple(x.split("=", 1)) for x in got.split("; ")) if got else []
+                        want = sorted((n, v) for n, v, dom, pth in ck
+                                      if (qhost == "example.com" if dom is None else ref_domain_match(qhost, dom)) and ref_path_match(target, pth))
+                        if pairs != want:
+                            b.fail("sticky.folded_set_cookie_line_each_cookie_keeps_its_own_scope", {"set_cookie": line, "request": [qhost, target]}, f"Cookie: {got!r}, expected {want}")
